@@ -10,9 +10,38 @@ const MANTISSAS: [f64; 5] = [1., 1.5, 1.25, 1.6653059193141975, 1.99999999999999
 const GRIDS: [f64; 6] = [2., 4., 8., 16., 1000., 1048576.];
 
 pub fn decode(data: &[u8], max_n: usize, want_mask: bool) -> Option<Case> {
+    decode_opts(data, &DecOpts { max_n, want_mask, ..DecOpts::default() })
+}
+
+/// What a target wants from the shared decoder.
+#[derive(Clone, Debug)]
+pub struct DecOpts {
+    pub max_n: usize,
+    pub want_mask: bool,
+    /// admissible dimensionalities (the decoded choice is mapped into this list)
+    pub dims: &'static [u8],
+    pub periodic: Option<bool>,
+    /// number of auxiliary values in [0, 1)
+    pub aux_f: usize,
+    /// number of auxiliary small integers (bytes) after the first u32
+    pub aux_i: usize,
+    /// garbage (incl. non finite values) in the unused coordinates of 1D / 2D inputs
+    pub garbage: bool,
+}
+impl Default for DecOpts {
+    fn default() -> Self {
+        DecOpts { max_n: 10, want_mask: false, dims: &[1, 2, 3], periodic: None, aux_f: 8, aux_i: 0, garbage: false }
+    }
+}
+
+const GARBAGE: [f64; 12] = [0., -0., 1., 0.5, 1e300, -1e300, 5e-324, -2.2250738585072014e-308, f64::NAN, f64::INFINITY, f64::NEG_INFINITY, 0.25];
+
+pub fn decode_opts(data: &[u8], o: &DecOpts) -> Option<Case> {
+    let (max_n, want_mask) = (o.max_n, o.want_mask);
     let mut u = Unstructured::new(data);
-    let dim = 1 + u.int_in_range(0u8..=2).ok()?;
+    let dim = o.dims[u.int_in_range(0usize..=2).ok()? % o.dims.len()];
     let periodic: bool = u.arbitrary().ok()?;
+    let periodic = o.periodic.unwrap_or(periodic);
     let d = dim as usize;
     let e = u.int_in_range(-3i32..=3).ok()?;
     let mut width = [1.; 3];
@@ -60,12 +89,112 @@ pub fn decode(data: &[u8], max_n: usize, want_mask: bool) -> Option<Case> {
         let bits: u32 = u.arbitrary().unwrap_or(0);
         c.mask = Some((0..c.n()).map(|i| (bits >> (i % 32)) & 1 == 1).collect());
     }
+    if o.garbage && d < 3 {
+        // after repair_distinct (which looks at the active coordinates only)
+        for k in d..3 {
+            c.anchor[k] = GARBAGE[u.int_in_range(0usize..=GARBAGE.len() - 1).unwrap_or(0)];
+            c.width[k] = GARBAGE[u.int_in_range(0usize..=GARBAGE.len() - 1).unwrap_or(0)];
+            for i in 0..c.gens.len() {
+                let j = u.int_in_range(0usize..=GARBAGE.len()).unwrap_or(0);
+                // the last choice: the active x coordinate of another generator
+                c.gens[i][k] = if j == GARBAGE.len() { c.gens[(i + 1) % c.gens.len()][0] } else { GARBAGE[j] };
+            }
+        }
+        if c.gens.iter().any(|g| g.iter().any(|x| !x.is_finite())) || !c.anchor.iter().chain(c.width.iter()).all(|x| x.is_finite()) {
+            c.family.push_str("+nonfinite");
+        }
+    }
     // whatever is left feeds the property specific auxiliary values
-    while c.aux_f.len() < 8 {
+    while c.aux_f.len() < o.aux_f {
         c.aux_f.push(u.int_in_range(0u16..=u16::MAX).unwrap_or(0) as f64 / 65536.);
     }
     c.aux_i.push(u.arbitrary::<u32>().unwrap_or(1) as i64);
+    for _ in 0..o.aux_i {
+        c.aux_i.push(u.arbitrary::<u8>().unwrap_or(0) as i64);
+    }
     Some(c)
+}
+
+/// The decoder of every fuzz target (used by the target itself and by `mvv decode`, so that an
+/// artifact is turned into exactly the case the target saw).
+pub fn decode_target(target: &str, data: &[u8]) -> Option<Case> {
+    let d = DecOpts::default();
+    match target {
+        "fz_tess" => decode(data, 10, true),
+        "fz_clip" => decode(data, 12, false),
+        "fz_nn" => decode(data, 40, false),
+        "fz_insphere" => decode_tuple(data).map(|t| {
+            let mut c = Case::default();
+            c.gens = vec![[0.5; 3]];
+            c.aux_i = t;
+            c
+        }),
+        // partial construction / connectivity / routes: a mask is always present
+        "fz_c07" | "fz_c12" | "fz_c13" => decode_opts(data, &DecOpts { max_n: 10, want_mask: true, ..d }).map(|mut c| {
+            if c.mask.is_none() {
+                let bits = c.aux_i[0] as u64;
+                c.mask = Some((0..c.n()).map(|i| (bits >> (i % 32)) & 1 == 1).collect());
+            }
+            c
+        }),
+        // periodic vs replicated: translation vector in [-2, 2) widths, a quarter of them on
+        // multiples of half a width
+        "fz_c06" => decode_opts(data, &DecOpts { max_n: 8, periodic: Some(true), ..d }).map(|mut c| {
+            let snap = c.aux_i[0] % 4 == 0;
+            let t: Vec<f64> = c.aux_f[..3].iter().map(|x| if snap { (x * 8.).floor() * 0.5 - 2. } else { x * 4. - 2. }).collect();
+            c.aux_f = t;
+            c
+        }),
+        "fz_c08" => decode_opts(data, &DecOpts { max_n: 12, want_mask: true, dims: &[1, 2], garbage: true, ..d }),
+        // polytope validity + operation sequences on a cell: aux_i = [pick, ops...]
+        "fz_c15" => decode_opts(data, &DecOpts { max_n: 14, want_mask: true, dims: &[3], aux_i: 10, ..d }).map(|mut c| {
+            for o in c.aux_i.iter_mut().skip(1) {
+                *o %= 6;
+            }
+            c
+        }),
+        // safety radius + additions outside the ball
+        "fz_c16" => decode_opts(data, &DecOpts { max_n: 14, aux_f: 84, ..d }),
+        _ => None,
+    }
+}
+
+type CheckFn = fn(&Case, &mut crate::runner::CaseStats) -> Result<(), String>;
+
+/// Oracle of a fuzz target (the unchanged property check) and the property it belongs to.
+pub fn target_check(target: &str) -> Option<(&'static str, CheckFn)> {
+    use crate::props::*;
+    Some(match target {
+        "fz_tess" => ("C05", c05::check_fuzz as CheckFn),
+        "fz_clip" => ("C18", c18::check),
+        "fz_nn" => ("C17", c17::check),
+        "fz_c06" => ("C06", c06::check),
+        "fz_c07" => ("C07", c07::check),
+        "fz_c08" => ("C08", c08::check),
+        "fz_c12" => ("C12", c12::check),
+        "fz_c13" => ("C13", c13::check),
+        "fz_c15" => ("C15", c15::check),
+        "fz_c16" => ("C16", c16::check),
+        _ => return None,
+    })
+}
+
+/// Body of the generic fuzz targets: decode, run the property's oracle, panic on a violation
+/// (libFuzzer records the input as a crash artifact; it is re-checked by the plain replay path
+/// before anything is reported).
+pub fn run_target(target: &str, data: &[u8]) {
+    let Some((id, check)) = target_check(target) else { return };
+    if let Some(c) = decode_target(target, data) {
+        if !crate::gen::is_valid(&c) {
+            return;
+        }
+        let mut cs = crate::runner::CaseStats::default();
+        if let Err(m) = check(&c, &mut cs) {
+            if !m.starts_with("INFRA:") {
+                panic!("VIOLATION-{id} {m}");
+            }
+        }
+    }
 }
 
 /// 15 grid coordinates in [0, 2^52) for the predicate target: a base pattern (small grid,
